@@ -22,6 +22,20 @@ fn sexp(c: &CT) -> String {
 
 fn atom(n: usize) -> SimpleExpr { Expr::col(Alias::new(format!("a{n}"))).into() }
 
+/// the same tree as a plain expression (`a.or(b)`, `.and(..)`, `.not()`): what `and_where(expr)` is given when the caller combines
+/// expressions instead of `Condition`s; groups need at least one member
+fn to_expr(c: &CT) -> Option<SimpleExpr> {
+    match c {
+        CT::Atom(n) => Some(atom(*n)),
+        CT::Group { any, neg, ms } => {
+            let mut it = ms.iter();
+            let mut acc = to_expr(it.next()?.as_ref()?)?;
+            for m in it { let r = to_expr(m.as_ref()?)?; acc = if *any { acc.or(r) } else { acc.and(r) }; }
+            Some(if *neg { acc.not() } else { acc })
+        }
+    }
+}
+
 /// build through the public API exactly as the recipe says
 fn build(c: &CT) -> Condition {
     match c {
@@ -260,6 +274,41 @@ fn random_tree(r: &mut SplitMix64, depth: u32, atoms: usize) -> CT {
     CT::Group { any: r.chance(1, 2), neg: r.chance(1, 3), ms: (0..w).map(|_| if r.chance(1, 8) { None } else { Some(random_tree(r, depth - 1, atoms)) }).collect() }
 }
 
+/// every member given as an expression through `and_where` / `and_having` (the chain API): the clause must still mean the AND of the members
+fn check_expr_chain(ctx: &mut Ctx, members: &[CT], b: B) {
+    let Some(exprs) = members.iter().map(to_expr).collect::<Option<Vec<_>>>() else { return };
+    let k = members.iter().map(natoms).max().unwrap_or(0);
+    for kind in ["select_where", "select_having", "update_where", "delete_where"] {
+        let es = exprs.clone();
+        let sql = match kind {
+            "select_where" => { let mut q = Query::select(); q.expr(Expr::val(1)).from(Alias::new("t")); for e in es { q.and_or_where(LogicalChainOper::And(e)); } to_string_q(b, &q) }
+            "select_having" => { let mut q = Query::select(); q.expr(Expr::val(1)).from(Alias::new("t")).group_by_col(Alias::new("g")); for e in es { q.and_having(e); } to_string_q(b, &q) }
+            "update_where" => { let mut q = Query::update(); q.table(Alias::new("t")).value(Alias::new("x"), 1); for e in es { q.and_or_where(LogicalChainOper::And(e)); } to_string_q(b, &q) }
+            _ => { let mut q = Query::delete(); q.from_table(Alias::new("t")); for e in es { q.and_or_where(LogicalChainOper::And(e)); } to_string_q(b, &q) }
+        };
+        let line = format!("chain-exprs {kind} {} {}", b.name(), members.iter().map(sexp).collect::<Vec<_>>().join(" "));
+        ctx.eval_only(&line, true);
+        ctx.count("kind.chain_exprs");
+        let Some(sql) = sql else { ctx.oracle_fail("conditions were supplied but no parsable predicate was rendered", serde_json::json!({"history": line, "rendered": "panic"})); continue };
+        let toks = match reflex::lex(b, &sql) { Ok(t) => t, Err(e) => { ctx.oracle_fail("conditions were supplied but no parsable predicate was rendered", serde_json::json!({"history": line, "sql": sql, "error": e})); continue } };
+        let kw = if kind == "select_having" { "HAVING" } else { "WHERE" };
+        let pred = word_pos(&toks, kw, 0).and_then(|f| parse_pred(&toks[f + 1..]));
+        let Some(p) = pred else { ctx.oracle_fail("conditions were supplied but no parsable predicate was rendered", serde_json::json!({"history": line, "sql": sql})); continue };
+        let mut rho = vec![K::T; k.max(1)];
+        for a in 0..3usize.pow(k as u32) {
+            let mut x = a;
+            for j in 0..k { rho[j] = [K::T, K::F, K::U][x % 3]; x /= 3; }
+            let want = members.iter().fold(K::T, |acc, c| and3(acc, spec(c, &rho)));
+            let got = evalp(&p, &rho);
+            if want != got {
+                ctx.oracle_fail("rendered predicate is not equivalent (three-valued) to the AND of the supplied conditions",
+                    serde_json::json!({"history": line, "kind": kind, "backend": b.name(), "sql": sql, "rendered": show(&p), "assignment": format!("{:?}", &rho[..k]), "expected": format!("{:?}", want), "got": format!("{:?}", got)}));
+                break;
+            }
+        }
+    }
+}
+
 pub fn run(ctx: &mut Ctx) {
     let thorough = ctx.tier_thorough;
     ctx.rule = format!("bounded-exhaustive: all condition trees of depth <= {} / width <= 2 (every any/all, every negate flag, empty groups, add_option(None) members) as 1-call histories on all 8 statement positions (SELECT WHERE / HAVING, UPDATE, DELETE, JOIN ON, CASE WHEN, ON CONFLICT target/action WHERE) x 3 backends, all ordered pairs of depth-1 trees as 2-call histories, then {} random histories (<= 4 calls, depth <= 4, width <= 3). Each: rendered predicate parsed by an independent SQL predicate parser and compared with the model's expression tree, and its 3-valued truth table (all 3^k assignments, k <= 4 atoms) compared with the AND of the supplied conditions. Non-trivial = non-empty history; distinct by request.", 2, if thorough { 60000 } else { 6000 });
@@ -298,5 +347,18 @@ pub fn run(ctx: &mut Ctx) {
         let kind = *r.pick(&KINDS);
         let b = *r.pick(&all_b);
         check_history(ctx, &hist, &[kind], &[b]);
+    }
+    // members given as expressions through the chain API: all pairs of small trees, then random ones
+    let mut nc = 0;
+    let members: Vec<CT> = enum_trees(1, 2, &mut nc, 3).into_iter().filter(|t| to_expr(t).is_some()).collect();
+    for x in &members { for y in &members { check_expr_chain(ctx, &[x.clone(), y.clone()], B::Sqlite); } }
+    for x in members.iter().step_by(2) { check_expr_chain(ctx, &[x.clone()], B::Mysql); }
+    let m = if thorough { 6000 } else { 600 };
+    for _ in 0..m {
+        let mut r = ctx.rng.fork();
+        let len = 1 + r.below(3) as usize;
+        let hist: Vec<CT> = (0..len).map(|_| random_tree(&mut r, 3, 4)).collect();
+        let b = *r.pick(&all_b);
+        check_expr_chain(ctx, &hist, b);
     }
 }
